@@ -255,6 +255,11 @@ def run_shard(args):
         return ("ok", stats.export())
     except BaseException as e:  # harness error inside a worker
         return ("error", f"shard {shard}: {type(e).__name__}: {e}\n{traceback.format_exc()}")
+    finally:
+        if nshards > 1:
+            # pool workers leave through os._exit, which skips atexit: remove the scratch directory here
+            from . import boards
+            boards.drop_scratch()
 
 
 class _Found(Exception):
